@@ -11,13 +11,11 @@
    "with or without the shortest-edge preference".
 
    NOT covered by a theorem (S/K only, harness/c14.py):
-   * "without a cycle": proved here as "F-1 distinct edges connecting all F plaquettes" (a connected
-     graph on F nodes with F-1 edges is a tree: standard graph theory, not formalised);
-   * "does not modify its input": value semantics in Gallina; checked on the implementation;
-   * "on a closed lattice precisely all sectors compatible with the global parity constraint":
-     each sector satisfies the constraint by C05_global_parity; that they are ALL of them is the
-     counting 2^(F-1) distinct sectors among 2^(F-1) compatible ones, checked exhaustively by the
-     harness, not formalised. *)
+   * "does not modify its input": value semantics in Gallina; checked on the implementation.
+   (Both clauses formerly listed here are now PROVED at the end of this file: "without a cycle" —
+   C14_tree_acyclic, no non-trivial closed walk with pairwise distinct tree edges — and "precisely all
+   sectors compatible with the global parity constraint" — C14_sectors_all_parity_compatible, by
+   C14_sectors_distinct + C05's global parity + the count 2^(F-1) of parity-compatible sectors.) *)
 From Coq Require Import List ZArith Bool Arith.
 From Koala Require Import Model.Lattice Model.Flux Model.SpanTree Proofs.LatticeFacts Proofs.FluxFacts
   Proofs.SpanTreeFacts Proofs.SpanTreeComplete Proofs.SpanTreeLattice.
